@@ -25,7 +25,7 @@ from pbt.core import Collector, HarnessError, mksig
 ID = "C03"
 RULE = ("semantic statement descriptions -> (builder program through SQLLiteQuery, independent fully bracketed / qualified reference text) x 3 generated databases "
         "per case (0-6 rows per table with NULLs, duplicates, zeros, negatives); aggregates with independent DISTINCT / FILTER, aggregate-only selects with HAVING, framed window functions (ROWS / RANGE, offsets 0-3). Non-trivial = >= 2 clause kinds beyond SELECT/FROM or nesting >= 2, and the reference "
-        "returns rows on some database (queries) or changes a row (DML); distinct = distinct (statement, databases).")
+        "returns rows on some database (queries) or changes a row (DML); distinct = distinct (statement, databases). Set operations also take a set operation as their operand (a.op(b.op2(c)): the grouping must survive).")
 ASSUMPTIONS = [
     "SQLite 3.40 is the ground truth; the reference writer shares no code with the library's get_sql",
     "LIMIT/OFFSET only with an ORDER BY that is total over the projected row; window ORDER BY ends with the primary key; grouped queries select only group keys and aggregates",
